@@ -354,14 +354,23 @@ def run_trip_impl(case):
             # the protocol also owns an (idle) mission plugin and a second random-trip plugin that never starts a trip
             decoys = (MissionMobilityPlugin(proto, MissionMobilityConfiguration(speed=1.0, tolerance=50.0)),  # noqa: F841
                       RandomMobilityPlugin(proto, RandomMobilityConfig(x_range=(0, 0), y_range=(0, 0), z_range=(0, 0), tolerance=1e9)))
+        noops = []
         for op in case["ops"]:
             proto.provider.cmds = []
             note = ""
             try:
                 if op[0] == "init":
+                    if case.get("decoy") and noops and not plugin.trip_ongoing:
+                        create_dispatcher(proto).unregister_handle_telemetry(noops.pop(0))
                     plugin.initiate_random_trip()
                 elif op[0] == "finish":
+                    was = plugin.trip_ongoing
                     plugin.finish_random_trip()
+                    if case.get("decoy") and was:
+                        # somebody else on this protocol starts listening to telemetry when the trip ends (and stops
+                        # when the next one begins): the chain keeps its length while its content changes
+                        noops.append(lambda instance, telemetry: DispatchReturn.CONTINUE)
+                        create_dispatcher(proto).register_handle_telemetry(noops[-1])
                 elif op[0] == "travel":
                     r = plugin.travel_to_random_waypoint()
                     c = proto.provider.cmds
